@@ -36,7 +36,62 @@ type HOp struct {
 
 // hqueue is the per-call command queue of a handler.
 type hqueue struct {
-	ch chan HOp
+	mu     sync.Mutex
+	ops    []HOp
+	closed bool
+	sig    chan struct{} // capacity 1: an op was queued
+	done   chan struct{} // closed by close
+}
+
+func newHQueue() *hqueue { return &hqueue{sig: make(chan struct{}, 1), done: make(chan struct{})} }
+
+func (q *hqueue) wake() {
+	select {
+	case q.sig <- struct{}{}:
+	default:
+	}
+}
+
+func (q *hqueue) put(op HOp) {
+	q.mu.Lock()
+	q.ops = append(q.ops, op)
+	q.mu.Unlock()
+	q.wake()
+}
+
+func (q *hqueue) close() {
+	q.mu.Lock()
+	if !q.closed {
+		q.closed = true
+		close(q.done)
+	}
+	q.mu.Unlock()
+}
+
+// get blocks until an op is queued (ok) or the queue is closed and drained (!ok).
+func (q *hqueue) get() (HOp, bool) {
+	for {
+		q.mu.Lock()
+		if len(q.ops) > 0 {
+			op := q.ops[0]
+			q.ops = q.ops[1:]
+			more := len(q.ops) > 0
+			q.mu.Unlock()
+			if more {
+				q.wake()
+			}
+			return op, true
+		}
+		closed := q.closed
+		q.mu.Unlock()
+		if closed {
+			return HOp{}, false
+		}
+		select {
+		case <-q.sig:
+		case <-q.done:
+		}
+	}
 }
 
 type hstate struct {
@@ -71,9 +126,9 @@ func (w *world) queue(c int) *hqueue {
 	defer w.mu.Unlock()
 	q, ok := w.hq[c]
 	if !ok {
-		q = &hqueue{ch: make(chan HOp, 64)}
+		q = newHQueue()
 		if w.closed {
-			close(q.ch)
+			q.close()
 		}
 		w.hq[c] = q
 	}
@@ -88,7 +143,7 @@ func (w *world) push(c int, ops ...HOp) {
 		return
 	}
 	for _, op := range ops {
-		q.ch <- op
+		q.put(op)
 	}
 }
 
@@ -108,7 +163,7 @@ func (w *world) closeAll() {
 	}
 	w.closed = true
 	for _, q := range w.hq {
-		close(q.ch)
+		q.close()
 	}
 }
 
@@ -308,7 +363,7 @@ func (w *world) runUnary(ctx context.Context, in *wrapperspb.BytesValue) (any, e
 		ok := false
 		if q != nil {
 			w.setIn(hs, "idle")
-			op, ok = <-q.ch
+			op, ok = q.get()
 		}
 		if !ok {
 			op = HOp{O: "ret", Pay: "\x00echo"}
@@ -442,7 +497,7 @@ func (w *world) runStream(kind string, ss grpc.ServerStream) error {
 		ok := false
 		if q != nil {
 			w.setIn(hs, "idle")
-			op, ok = <-q.ch
+			op, ok = q.get()
 		}
 		if !ok {
 			op = HOp{O: "echo"}
